@@ -1,4 +1,6 @@
 
+val xorb : bool -> bool -> bool
+
 val negb : bool -> bool
 
 type nat =
@@ -1098,6 +1100,185 @@ val option_effect : str -> str -> val0
 
 val dispatch_option : z -> val0 -> val0 option
 
+val chSP : z
+
+val chBS : z
+
+val chBAR : z
+
+val chBANG : z
+
+val chDOLLAR : z
+
+val chQUOTE : z
+
+val chCARET : z
+
+type kind =
+| KFuzzy
+| KExact
+| KBoundary
+| KPrefix
+| KSuffix
+| KEqual
+
+type case_mode =
+| CaseSmart
+| CaseIgnore
+| CaseRespect
+
+type qopts = { q_fuzzy : bool; q_extended : bool; q_case : case_mode;
+               q_normalize : bool }
+
+type sterm = { t_kind : kind; t_inv : bool; t_text : str; t_cs : bool;
+               t_nm : bool }
+
+val is_some : 'a1 option -> bool
+
+val starts : z -> str -> bool
+
+val ends : z -> str -> bool
+
+val trim_left : str -> str
+
+val trim_right_rev : str -> str
+
+val trim : str -> str
+
+val emit : 'a1 list -> 'a1 list list -> 'a1 list list
+
+val tokens_aux : str -> str -> str list
+
+val tokens : str -> str list
+
+val lower_str : char_ops -> str -> str
+
+val norm_str : char_ops -> str -> str
+
+val case_of : char_ops -> case_mode -> str -> bool
+
+val norm_of : char_ops -> bool -> str -> bool
+
+val classify : char_ops -> qopts -> str -> sterm option
+
+val is_bar : char_ops -> qopts -> str -> bool
+
+val groups_aux :
+  char_ops -> qopts -> str list -> sterm list -> bool -> bool -> sterm list
+  list
+
+val groups : char_ops -> qopts -> str list -> sterm list list
+
+val query_groups : char_ops -> qopts -> str -> sterm list list
+
+val sat_term : char_ops -> scheme -> sterm -> str -> bool
+
+val sat_groups : char_ops -> scheme -> sterm list list -> str -> bool
+
+val sat_basic : char_ops -> qopts -> str -> str -> bool
+
+val sat_query : char_ops -> scheme -> qopts -> str -> str -> bool
+
+type ttype =
+| TermFuzzy
+| TermExact
+| TermExactBoundary
+| TermPrefix
+| TermSuffix
+| TermEqual
+
+type term = { tm_typ : ttype; tm_inv : bool; tm_text : str; tm_cs : bool;
+              tm_nm : bool }
+
+type termSet = term list
+
+type popts = { p_fuzzy : bool; p_v2 : bool; p_extended : bool;
+               p_case : case_mode; p_normalize : bool; p_forward : bool;
+               p_slabCap : z option }
+
+type pattern = { pat_opts : popts; pat_cs : bool; pat_nm : bool;
+                 pat_text : str; pat_sets : termSet list }
+
+val qopts_of : popts -> qopts
+
+val has_prefix0 : str -> z -> bool
+
+val has_suffix0 : str -> z -> bool
+
+val slice_from1 : str -> str res
+
+val slice_to_last : str -> str res
+
+val to_lower0 : char_ops -> str -> str
+
+val normalize_runes : char_ops -> str -> str
+
+val replace_esc : str -> str
+
+val split_blanks : str -> str -> bool -> str list
+
+val untab : str -> str
+
+val case_sensitive : case_mode -> str -> str -> bool
+
+val strip_ops : bool -> ttype -> str -> ((ttype * bool) * str) res
+
+type pstate = { st_sets : termSet list; st_set : termSet;
+                st_switchSet : bool; st_afterBar : bool }
+
+val parse_step : char_ops -> popts -> pstate -> str -> pstate res
+
+val parse_loop : char_ops -> popts -> str list -> pstate -> termSet list res
+
+val parse_terms : char_ops -> popts -> str -> termSet list res
+
+val trim_left_m : str -> str
+
+val trim_right_m : nat -> str -> str res
+
+val build_pattern : char_ops -> popts -> str -> pattern res
+
+val run_algo :
+  char_ops -> scheme -> popts -> ttype -> bool -> bool -> str -> str -> bool
+  -> mres res
+
+val range_nat : nat -> nat -> nat list
+
+val add_pos : bool -> nat list -> nat -> nat -> nat list option -> nat list
+
+val match_set :
+  char_ops -> scheme -> popts -> termSet -> str -> bool -> ((nat * nat) * z)
+  option -> nat list -> (((nat * nat) * z) option * nat list) res
+
+val extended_match :
+  char_ops -> scheme -> popts -> termSet list -> str -> bool -> (nat * nat)
+  list -> z -> nat list -> (((nat * nat) list * z) * nat list) res
+
+type mitem = ((nat * nat) list * z) * nat list option
+
+val match_item :
+  char_ops -> scheme -> pattern -> str -> bool -> mitem option res
+
+val case_of_z : z -> case_mode
+
+val as_popts : val0 -> popts
+
+val z_of_ttype : ttype -> z
+
+val z_of_kind : kind -> z
+
+val v_term : term -> val0
+
+val v_sterm : sterm -> val0
+
+val v_sets : termSet list -> val0
+
+val v_groups : sterm list list -> val0
+
+val v_mitem : mitem option res -> val0
+
+val dispatch_pattern : z -> val0 -> val0 option
+
 val c_sq : z
 
 val c_bs : z
@@ -1160,9 +1341,9 @@ val export_line : str -> str -> str
 
 val strip_prefix : str -> str -> str option
 
-val has_prefix0 : str -> str -> bool
+val has_prefix1 : str -> str -> bool
 
-val has_suffix0 : str -> str -> bool
+val has_suffix1 : str -> str -> bool
 
 val trim_suffix : str -> str -> str
 
@@ -1419,7 +1600,7 @@ val trim_right : (z -> bool) -> str -> str
 
 val inside_selection : fexpr -> nat -> str list -> nat -> nat -> bool
 
-type token = { t_text : str; t_prefix : z }
+type token = { t_text0 : str; t_prefix : z }
 
 type delimiter =
 | DAwk
@@ -1445,9 +1626,9 @@ val regex_tokens : str -> nat -> (nat * nat) list -> str list res
 
 val tokenize0 : str -> delimiter -> token list res
 
-val has_prefix1 : str -> str -> bool
+val has_prefix2 : str -> str -> bool
 
-val has_suffix1 : str -> str -> bool
+val has_suffix2 : str -> str -> bool
 
 val contains0 : str -> str -> bool
 
@@ -1586,7 +1767,7 @@ val skipped : str list -> str -> str -> bool
 
 val pruned : wopts -> str list -> str -> str -> bool
 
-val emit : bool -> str -> str list
+val emit0 : bool -> str -> str list
 
 val list_entry : wopts -> str list -> str -> entry -> str list
 
@@ -1594,7 +1775,7 @@ val listing : wopts -> str list -> str -> entry list -> str list
 
 val listing_roots : wopts -> str list -> (str * entry list) list -> str list
 
-type kind =
+type kind0 =
 | KFile
 | KDir
 | KSymFile
@@ -1604,7 +1785,7 @@ type action0 =
 | Continue
 | SkipDir
 
-val kind_of : entry -> kind
+val kind_of : entry -> kind0
 
 val is_sep0 : z -> bool
 
@@ -1637,10 +1818,10 @@ val split_ignores : str list -> (str list * str list) * str list
 val push : bool -> str -> str list
 
 val walk_fn :
-  wopts -> ((str list * str list) * str list) -> str -> kind -> (str
+  wopts -> ((str list * str list) * str list) -> str -> kind0 -> (str
   list * action0) res
 
-type callback = str -> kind -> (str list * action0) res
+type callback = str -> kind0 -> (str list * action0) res
 
 val fw_entry : callback -> bool -> str -> entry -> str list res
 
@@ -1660,7 +1841,7 @@ val as_root : val0 -> str * entry list
 
 val as_roots : val0 -> (str * entry list) list
 
-val as_kind : z -> kind
+val as_kind : z -> kind0
 
 val d_model : val0 -> val0
 
